@@ -130,8 +130,11 @@ def y_scripts(seed, count):
                 prog += "C"
             elif r < 0.80:
                 prog += "T"
-            elif r < 0.93:
+            elif r < 0.90:
                 prog += "Q"
+            elif r < 0.95 and mx >= 2 and tasks < 5:
+                prog += "M"     # a second client thread calls start() concurrently with the owner (3 + 2 tasks)
+                tasks += 5
             else:
                 prog += "G"
         if rnd.random() < 0.5:
@@ -172,6 +175,8 @@ def owners(info):
         return {"C08"}
     if e in ("Quiescent", "Done") and restarted:
         return {"C07", "C08"}
+    if e == "StopRet":
+        return {"C08"}
     if e == "Crash":
         return {"C07", "C08"} if any(ev["e"] == "StopCall" for ev in matched) and not any(ev["e"] == "StopRet" for ev in matched[-3:]) else {"C07"}
     return {"C07"}
@@ -215,7 +220,7 @@ def check(pid, tier, seed):
     toolong = [x for x, e in execs.items() if any(ev["e"] == "TooLong" for ev in e)]
     if toolong:
         raise common.InfraError("executions exceeded the step budget: %s" % toolong[:3])
-    acc, rej, tst = tracecheck.validate(SPEC, "PoolPTrace.tla", "PoolPTrace.cfg", execs)
+    acc, rej, tst = tracecheck.validate(SPEC, "PoolPTrace.tla", "PoolPTrace_%s.cfg" % pid, execs)
     log("[%s] trace validation: %d executions (%d distinct), %d rejected, TLC %.1fs" % (pid, tst["executions"], tst["distinct_traces"], len(rej), tst["tlc_wall_s"]))
     for x, info in rej.items():
         if pid in owners(info):
